@@ -78,7 +78,56 @@ func jlsInts(s []int, lim int) string {
 	return b.String()
 }
 
-var jlsKinds = []string{"noise", "twolevel", "runs", "runs-eol", "gradient", "near-edges", "ramp", "smooth", "constant"}
+var jlsKinds = []string{"noise", "twolevel", "runs", "runs-eol", "gradient", "near-edges", "ramp", "smooth", "constant", "run-jump"}
+
+// run lengths of the "run-jump" family: every length 1..80 and the neighbourhoods of 128, 256, 512, 1024
+var jlsRunLens = func() []int {
+	l := []int{}
+	for i := 1; i <= 80; i++ {
+		l = append(l, i)
+	}
+	for _, c := range []int{128, 256, 512, 1024} {
+		l = append(l, c-1, c, c+1)
+	}
+	return l
+}()
+
+// jlsJump returns the value of a run-interrupting sample for base level b: class 0 small (just
+// outside NEAR), 1 mid-range (large enough for the LIMIT escape, no wrap), 2 full range.
+func jlsJump(r *hx.Rand, class, b, mv, near int) int {
+	var v int
+	switch class {
+	case 0:
+		v = b + (near+1+r.Intn(3))*(1-2*r.Intn(2))
+	case 1:
+		d := mv/4 + r.Intn(mv/4+1)
+		if b+d <= mv {
+			v = b + d
+		} else {
+			v = b - d
+		}
+	default:
+		if b <= mv/2 {
+			v = mv - r.Intn(near+1)
+		} else {
+			v = r.Intn(near + 1)
+		}
+	}
+	if v < 0 {
+		v = 0
+	}
+	if v > mv {
+		v = mv
+	}
+	if v >= b-near && v <= b+near { // must not extend the run
+		if b+near+1 <= mv {
+			v = b + near + 1
+		} else {
+			v = b - near - 1
+		}
+	}
+	return v
+}
 
 // jlsGen makes one image of the named content class. near only shapes the content (ramp step,
 // edge distance); it is not a coding parameter here.
@@ -173,6 +222,93 @@ func jlsGen(r *hx.Rand, kind string, w, h, comps, p, near int) jlsImage {
 			for x := 0; x < w; x++ {
 				for c := 0; c < comps; c++ {
 					s[at(x, y, c)] = (x*st + y + r.Intn(2)*near) % (mv + 1)
+				}
+			}
+		}
+	case "run-jump":
+		// Runs of every length (jlsRunLens, cycled) starting at the line start and mid-line, each ended
+		// by a jump of a small / mid-range (escape-taking) / full-range class. Row 0 runs over the
+		// level 0 (neighbours above are 0); later pattern rows sit under two flat rows of their base
+		// level so that run mode is entered, with spikes in the row above some jump columns so that
+		// both run-interruption contexts (|Ra-Rb| <= NEAR and > NEAR) occur. RUNindex persists over
+		// lines, so long images walk the whole J table up (full runs) and down (interruptions).
+		li := r.Intn(len(jlsRunLens))
+		y := 0
+		for y < h {
+			base := make([]int, comps)
+			if y > 0 {
+				for c := range base {
+					base[c] = r.Intn(mv + 1)
+				}
+				if y+2 >= h { // not enough rows for flat,flat,pattern: fill flat
+					for ; y < h; y++ {
+						for x := 0; x < w; x++ {
+							for c := 0; c < comps; c++ {
+								s[at(x, y, c)] = base[c]
+							}
+						}
+					}
+					break
+				}
+				for k := 0; k < 2; k++ {
+					for x := 0; x < w; x++ {
+						for c := 0; c < comps; c++ {
+							s[at(x, y, c)] = base[c]
+						}
+					}
+					y++
+				}
+			}
+			x := 0
+			if r.Intn(3) == 0 { // run starts mid-line: a few non-flat samples first
+				for k := r.Range(1, 3); k > 0 && x < w; k-- {
+					for c := 0; c < comps; c++ {
+						s[at(x, y, c)] = r.Intn(mv + 1)
+					}
+					x++
+				}
+			}
+			for x < w {
+				l := jlsRunLens[li%len(jlsRunLens)]
+				li++
+				for ; l > 0 && x < w; l-- {
+					for c := 0; c < comps; c++ {
+						s[at(x, y, c)] = base[c]
+					}
+					x++
+				}
+				if x < w {
+					class := r.Pick([]int{0, 1, 1, 1, 2})
+					for c := 0; c < comps; c++ {
+						s[at(x, y, c)] = jlsJump(r, class, base[c], mv, near)
+					}
+					if y > 0 && r.Bool() { // spike above the interruption: RItype 0 for one component
+						for c := 0; c < comps; c++ {
+							s[at(x, y-1, c)] = jlsJump(r, r.Intn(3), base[c], mv, near)
+						}
+					}
+					x++
+				}
+			}
+			y++
+		}
+	case "flat-jump": // a long flat area (RUNindex climbs), then one non-run sample in the last row, then noise
+		b := make([]int, comps)
+		for c := range b {
+			b[c] = r.Pick([]int{0, 0, mv, r.Intn(mv + 1)})
+		}
+		for i := range s {
+			s[i] = b[i%comps]
+		}
+		if w > 1 {
+			x := r.Range(1, w-1)
+			cls := r.Pick([]int{0, 1, 1, 2})
+			for c := 0; c < comps; c++ {
+				s[at(x, h-1, c)] = jlsJump(r, cls, b[c], mv, near)
+			}
+			for xx := x + 1; xx < w; xx++ {
+				for c := 0; c < comps; c++ {
+					s[at(xx, h-1, c)] = r.Intn(mv + 1)
 				}
 			}
 		}
@@ -521,3 +657,142 @@ func jlsWithArgs(f func(a []int) string) func() string {
 }
 
 var jlsLastArgs []int
+
+// jlsRunJumpImages yields the images of the run-then-jump sweep shared by C03/C07/C14: for one and
+// three components, single-row and multi-row run-jump images wide enough for every run length,
+// low precisions with long flat areas, and long images that walk RUNindex over the whole J table.
+func jlsRunJumpImages(r *hx.Rand, thorough bool, nears func(p int) []int, f func(im jlsImage, near int)) {
+	ps := []int{8, 2, 3, 4, 12, 16, 5}
+	if thorough {
+		ps = []int{2, 3, 4, 5, 6, 7, 8, 9, 10, 11, 12, 13, 14, 15, 16}
+	}
+	for _, p := range ps {
+		for _, near := range nears(p) {
+			for _, comps := range []int{1, 3} {
+				reps := 2
+				if thorough {
+					reps = 6
+				}
+				for i := 0; i < reps; i++ {
+					f(jlsGen(r, "run-jump", r.Range(90, 700), 1, comps, p, near), near)
+					f(jlsGen(r, "run-jump", r.Range(40, 300), r.Pick([]int{3, 6, 9}), comps, p, near), near)
+				}
+				// short rows: one run + one jump, every run length 1..80 at the line start
+				if p == 8 || thorough {
+					for l := 1; l <= 80; l++ {
+						mv := (1 << uint(p)) - 1
+						w := l + 3
+						s := make([]int, w*comps)
+						for c := 0; c < comps; c++ {
+							s[l*comps+c] = jlsJump(r, 1, 0, mv, near)
+							s[(l+1)*comps+c] = jlsJump(r, 1, 0, mv, near)
+							s[(l+2)*comps+c] = s[(l+1)*comps+c]
+						}
+						f(jlsImage{W: w, H: 1, C: comps, P: p, S: s, Kind: "run-jump"}, near)
+					}
+				}
+			}
+		}
+	}
+	// RUNindex ladder: an escape-coded interruption at every RUNindex 0..31
+	lp := []int{8, 2}
+	if thorough {
+		lp = []int{8, 2, 4, 12, 16}
+	}
+	for _, p := range lp {
+		for _, near := range nears(p) {
+			for _, comps := range []int{1, 3} {
+				if im := jlsLadder(r, comps, p, near, 0, 31); im.W <= 65535 {
+					f(im, near)
+				}
+				for t := 0; t <= 31; t++ {
+					if p != 8 && !thorough && t%5 != 0 && t != 31 {
+						continue
+					}
+					f(jlsLadder(r, comps, p, near, t, t), near)
+				}
+			}
+		}
+	}
+	// low precisions, long flat areas followed by a non-run sample
+	for _, ph := range [][3]int{{2, 70, 1}, {2, 300, 2}, {3, 300, 1}, {3, 512, 3}, {4, 512, 4}, {4, 512, 9}, {5, 512, 12}, {8, 512, 40}, {16, 700, 50}, {8, 40000, 2}, {2, 40000, 2}} {
+		p, w, h := ph[0], ph[1], ph[2]
+		for _, near := range nears(p) {
+			for _, comps := range []int{1, 3} {
+				f(jlsGen(r, "flat-jump", w, h, comps, p, near), near)
+				f(jlsGen(r, "flat-jump", w+r.Intn(40), h, comps, p, near), near)
+			}
+		}
+	}
+}
+
+// jlsLadder is one row over level 0 whose run lengths are chosen so that the run interruptions
+// happen at RUNindex 0, 1, 2, …, 31 in turn (each run climbs from the current index to the target
+// in full 2^J chunks plus a remainder below the next chunk; the interruption then steps back by
+// one), every interruption being a mid-range jump that takes the LIMIT escape.
+// With from == to the image holds a single climb 0 -> to and one interruption (fresh run
+// contexts, so the mid-range jump is certain to take the escape).
+func jlsLadder(r *hx.Rand, comps, p, near, from, to int) jlsImage {
+	mv := (1 << uint(p)) - 1
+	px := [][]int{}
+	add := func(v []int) { px = append(px, v) }
+	zero := make([]int, comps)
+	cur := 0
+	for t := from; t <= to; t++ {
+		n := 0
+		for i := cur; i < t; i++ {
+			n += 1 << uint(c14J[i])
+		}
+		if r.Bool() && c14J[t] > 0 {
+			if rem := r.Intn(1 << uint(c14J[t])); len(px)+n+rem+8 <= 65535 { // keep the row within the 16-bit width field
+				n += rem // remainder, coded in J[t] bits
+			}
+		}
+		for ; n > 0; n-- {
+			add(zero)
+		}
+		j := make([]int, comps)
+		for c := range j {
+			j[c] = jlsJump(r, 1, 0, mv, near)
+		}
+		add(j)
+		add(zero) // coded in regular mode (Ra = jump value); the next run starts after it
+		cur = t - 1
+		if cur < 0 {
+			cur = 0
+		}
+	}
+	s := make([]int, 0, len(px)*comps)
+	for _, v := range px {
+		s = append(s, v...)
+	}
+	return jlsImage{W: len(px), H: 1, C: comps, P: p, S: s, Kind: "run-ladder"}
+}
+
+// jlsRunCounters adds the reference decoder's run-mode branch counters to the distribution.
+func jlsRunCounters(c *hx.Ctx, st *c14State) {
+	if st == nil {
+		return
+	}
+	for i := 0; i < 32; i++ {
+		if st.intByIdx[i] > 0 {
+			c.CountN(fmt.Sprintf("branch:run-interruption@RUNindex=%02d(J=%d)", i, c14J[i]), st.intByIdx[i])
+		}
+		if st.intEscByIdx[i] > 0 {
+			c.CountN(fmt.Sprintf("branch:run-interruption-LIMIT-escape@RUNindex=%02d(J=%d)", i, c14J[i]), st.intEscByIdx[i])
+		}
+	}
+}
+
+// jlsRunCoverageNote records which J steps were never visited by an escape-coded run interruption.
+func jlsRunCoverageNote(c *hx.Ctx) {
+	miss := []int{}
+	for i := 0; i < 32; i++ {
+		if c.Distribution[fmt.Sprintf("branch:run-interruption-LIMIT-escape@RUNindex=%02d(J=%d)", i, c14J[i])] == 0 {
+			miss = append(miss, i)
+		}
+	}
+	if len(miss) > 0 {
+		c.Notes = append(c.Notes, fmt.Sprintf("RUNindex values without an escape-coded run interruption in this run: %v", miss))
+	}
+}
